@@ -24,7 +24,7 @@ def env():
 def run_kani(pid, harnesses, jobs=8, timeout_s=3000, mem_gb=40):
     """one cargo-kani invocation for all harnesses (parallel with -j). returns
     {harness: dict(status, secs, failed=[...], covers=(sat,total))}, raw log path"""
-    target = os.path.join(VERIF, "target", "kani-%s" % pid)
+    target = os.path.join(VERIF, "target", "kani")
     os.makedirs(target, exist_ok=True)
     shutil.copyfile("/repo/Cargo.lock", os.path.join(KANI_DIR, "Cargo.lock"))
     cmd = ["cargo", "kani", "-Z", "stubbing", "--target-dir", target, "-j", str(jobs), "--output-format", "terse"]
@@ -96,7 +96,7 @@ def parse_log(txt, harnesses):
 def playback(pid, harness, timeout_s=1200):
     """concrete playback of a failing harness: generates the unit test in place, runs it
     natively (dev profile) and restores the sources. returns (reproduced, text)"""
-    target = os.path.join(VERIF, "target", "kani-%s" % pid)
+    target = os.path.join(VERIF, "target", "kani")
     src = os.path.join(KANI_DIR, "src")
     bak = os.path.join(VERIF, "work", "kani_src_backup_%s" % pid)
     shutil.rmtree(bak, ignore_errors=True)
